@@ -19,6 +19,9 @@ TECH = {
     "C05": "ordering/typestate rule on Observer::unsubscribe (MIR paths + slot interpreter), gate dominance",
     "C06": "pairing rule on all paths (upstream_abort_observe before early sink_complete), finalize shape and must-pass-through rules",
     "C07": "lock-effect analysis: guard liveness dataflow on MIR x user-reachability over the resolved call graph x cell-instance identity (re-entrancy self-deadlock), leaf-lock rule, loop-poll rule",
+    "C08": "condvar/mutex discipline rules (monitor premises Q1-Q11) on the MIR: guard liveness, must-pass-through notify, dominance of the abort re-check, loop-exit structure, who-may-call",
+    "C17": "ownership analysis: discovery of closure-owns-its-receiver installations vs a reviewed table + cut obligations as path rules",
+    "C18": "lock-order/atomicity rules on ToVec::poll and the terminal callbacks (guard liveness + dominance)",
     "C14": "capture/ownership analysis: interior-mutable leaves of every upvar type of every Observable::create closure",
 }
 NOTE = ("Decides necessary structural conditions on the MIR of /repo's current tree (all paths of every matching site); "
